@@ -347,6 +347,15 @@ impl W {
             if let Some(did) = sent {
                 self.enqueue_up(ctx, c, did);
             }
+            // in streaming cases the client application, too, submits a payload every tick without looking at the connection state,
+            // as the UDP transport does with whatever the message layer has queued: a client that is not connected refuses
+            // (ClientNotConnected) and nothing leaves; whatever does leave travels like any other datagram
+            if self.streaming && self.nw.clients[c].client.is_connecting() {
+                if let Ok(did) = self.nw.client_payload(c, &[9, 9, 9]) {
+                    self.enqueue_up(ctx, c, did);
+                    ctx.label("payload_from_connecting_client");
+                }
+            }
             // datagrams to the server due now
             let mut due = vec![];
             self.cl[c].up.retain(|(d, when)| {
@@ -374,7 +383,7 @@ impl Property for C18 {
         "fault_enumeration"
     }
     fn rule(&self) -> String {
-        "A case = secure server with a client limit of 1-3 at construction, raised or lowered at run time in some cases; 1-4 honest clients on distinct addresses spawned at any time, token timeouts 1-15 s or disabled, 1-3 server addresses of which a prefix is silent (the first of them, in some cases, a second server that answers the request with a challenge and is never heard of again); ticks of 10 ms - 1 s around the 250 ms send rate; per-datagram loss / delay by 1-3 ticks / duplication in both directions during and after the handshake, whole-silence periods per client, the server application streaming a payload to every connected client each tick in some cases, forged and replayed datagrams presented to both sides during silences, among them the replies of the handshake phase (denied, challenge) the server once addressed to a client, presented again once that client is connected; every other silent address is a dead port on the answering server's own ip. A model keeps, per side, the time of the last authentic and fresh packet accepted (genuine datagram delivered for the first time to the endpoint holding that session). Oracles at every update: a peer whose last accepted packet is older than its timeout is reported disconnected by that update (server: ClientDisconnected; client: ConnectionTimedOut), one whose accepted packets are not further apart is not; half-open sessions are gone after their token's expiry second; a denial only happens when the server was full or the id/address was taken during that attempt. Enumerated besides the histories: every address-list length 1-32 with every position of the single answering address (or none), four timeout / tick combinations, delivered at once, with the first datagram to the answering server lost, or with one tick of latency each way - the client must walk the list, connect at the answering address or end disconnected when the list is exhausted, within (timeout/tick + 3) updates per address. After faults stop: every client still connecting whose attempt never met a full server or a taken id/address, with an unexpired token and timeouts enabled when addresses are silent, is connected on both sides within sum(timeouts of the remaining silent addresses) + 8*max(250 ms, tick) + 1 s. Non-trivial: a handshake datagram of at least two of the four kinds was lost, or a silent first address, a raised limit, or a forged packet during a silence occurred, and the heal obligation was evaluated. Distinct = hash of the decoded operation trace.".into()
+        "A case = secure server with a client limit of 1-3 at construction, raised or lowered at run time in some cases; 1-4 honest clients on distinct addresses spawned at any time, token timeouts 1-15 s or disabled, 1-3 server addresses of which a prefix is silent (the first of them, in some cases, a second server that answers the request with a challenge and is never heard of again); ticks of 10 ms - 1 s around the 250 ms send rate; per-datagram loss / delay by 1-3 ticks / duplication in both directions during and after the handshake, whole-silence periods per client, the server application streaming a payload to every connected client each tick in some cases (the client application then submits one per tick as well, whatever state its client is in), forged and replayed datagrams presented to both sides during silences, among them the replies of the handshake phase (denied, challenge) the server once addressed to a client, presented again once that client is connected; every other silent address is a dead port on the answering server's own ip. A model keeps, per side, the time of the last authentic and fresh packet accepted (genuine datagram delivered for the first time to the endpoint holding that session). Oracles at every update: a peer whose last accepted packet is older than its timeout is reported disconnected by that update (server: ClientDisconnected; client: ConnectionTimedOut), one whose accepted packets are not further apart is not; half-open sessions are gone after their token's expiry second; a denial only happens when the server was full or the id/address was taken during that attempt. Enumerated besides the histories: every address-list length 1-32 with every position of the single answering address (or none), four timeout / tick combinations, delivered at once, with the first datagram to the answering server lost, or with one tick of latency each way - the client must walk the list, connect at the answering address or end disconnected when the list is exhausted, within (timeout/tick + 3) updates per address. After faults stop: every client still connecting whose attempt never met a full server or a taken id/address, with an unexpired token and timeouts enabled when addresses are silent, is connected on both sides within sum(timeouts of the remaining silent addresses) + 8*max(250 ms, tick) + 1 s. Every session that is established on both sides and fresh (last accepted packet on both sides more than 1 s + 2 ticks younger than the timeout) when the faults stop is still established after timeout + 1.5 s of fault-free ticks. Non-trivial: a handshake datagram of at least two of the four kinds was lost, or a silent first address, a raised limit, or a forged packet during a silence occurred, and the heal obligation was evaluated. Distinct = hash of the decoded operation trace.".into()
     }
     fn assumptions(&self) -> Vec<String> {
         vec![
@@ -387,7 +396,7 @@ impl Property for C18 {
         PbtCfg { cases: tier.pick(200_000, 4_000_000), max_len: tier.pick(500, 1600), shrink_ms: 120_000 }
     }
     fn required_labels(&self) -> Vec<&'static str> {
-        vec!["lost_request", "lost_challenge", "lost_response", "lost_keepalive", "silent_first_address", "limit_raised", "limit_lowered", "forged_in_silence", "server_timeout", "client_timeout", "heal_obligation", "streaming", "timeouts_disabled", "challenge_then_silent_address", "address_list_walked", "address_list_exhausted", "stale_handshake_reply", "stale_denied_at_connected_client"]
+        vec!["lost_request", "lost_challenge", "lost_response", "lost_keepalive", "silent_first_address", "limit_raised", "limit_lowered", "forged_in_silence", "server_timeout", "client_timeout", "heal_obligation", "streaming", "timeouts_disabled", "challenge_then_silent_address", "address_list_walked", "address_list_exhausted", "stale_handshake_reply", "stale_denied_at_connected_client", "survivor_obligation"]
     }
     fn enums(&self, _tier: Tier) -> Vec<(&'static str, u64)> {
         // every address-list length 1..=32 x every position of the one answering address (or none) x 4 timeout / tick combinations
@@ -709,7 +718,30 @@ impl Property for C18 {
         if !obligations.is_empty() {
             ctx.label("heal_obligation");
         }
-        let horizon = obligations.iter().map(|o| o.1).max().unwrap_or(2000).max(2000);
+        // sessions that are established on both sides and fresh when the faults stop must survive the heal phase: both ends keep being
+        // updated and the network delivers, so authentic packets (keep-alives, if nothing else) have to keep arriving within every
+        // timeout period - at every session, whichever slot it sits in and whatever the client limit is by now
+        let mut survivors: Vec<usize> = vec![];
+        for c in 0..w.cl.len() {
+            let cl = &w.cl[c];
+            let id = w.nw.clients[c].client_id;
+            let both = w.nw.clients[c].client.is_connected() && w.nw.servers[0].server.client_addr(id) == Some(w.nw.clients[c].addr);
+            if !both || cl.timeout <= 0 {
+                continue;
+            }
+            let margin = Duration::from_millis(1000 + 2 * tick_ms);
+            let limit = Duration::from_secs(cl.timeout as u64);
+            let fresh_srv = cl.srv_last.map(|l| (w.nw.now - l) + margin < limit).unwrap_or(false);
+            let fresh_cli = cl.cli_last.map(|l| (cl.cli_now - l) + margin < limit).unwrap_or(false);
+            if fresh_srv && fresh_cli {
+                survivors.push(c);
+            }
+        }
+        if !survivors.is_empty() {
+            ctx.label("survivor_obligation");
+        }
+        let survive_ms = survivors.iter().map(|&c| w.cl[c].timeout as u64 * 1000 + 1500).max().unwrap_or(0);
+        let horizon = obligations.iter().map(|o| o.1).max().unwrap_or(2000).max(2000).max(survive_ms);
         let mut elapsed = 0u64;
         let mut done: Vec<bool> = vec![false; obligations.len()];
         while elapsed < horizon + tick_ms {
@@ -743,6 +775,25 @@ impl Property for C18 {
                         ),
                     ));
                 }
+            }
+        }
+        for &c in survivors.iter() {
+            let id = w.nw.clients[c].client_id;
+            let client = &w.nw.clients[c].client;
+            let held = w.nw.servers[0].server.client_addr(id) == Some(w.nw.clients[c].addr);
+            if !client.is_connected() || !held {
+                return Err(Fail::new(
+                    "established_session_lost",
+                    format!(
+                        "client {c} (timeout {} s) was connected on both sides and fresh when the faults stopped; after {elapsed} ms of fault-free ticks of {tick_ms} ms: client connected={} reason={:?}, server holds session={}, connected clients {} of limit {}",
+                        w.cl[c].timeout,
+                        client.is_connected(),
+                        client.disconnect_reason(),
+                        held,
+                        w.nw.servers[0].server.connected_clients(),
+                        w.limit
+                    ),
+                ));
             }
         }
         let lost_kinds = ["lost_request", "lost_challenge", "lost_response", "lost_keepalive"].iter().filter(|l| ctx.has(l)).count();
